@@ -233,6 +233,9 @@ func (w *Writer) WriteRecord(framecount int64, timestamp int64, data []uint16) e
 	if len(data) != w.Samples {
 		return fmt.Errorf("ljh incorrect number of samples, have %v, want %v", len(data), w.Samples)
 	}
+	if !w.writer.HasRoom(3) { // all 3 parts or nothing: never leave a partial record in the file
+		return errors.New("ljh write queue is full, record not written")
+	}
 	subframeCount := framecount*int64(w.SubframeDivisions) + int64(w.SubframeOffset)
 	if _, err := w.writer.Write(getbytes.FromInt64(subframeCount)); err != nil {
 		return err
@@ -302,6 +305,9 @@ func (w *Writer3) WriteHeader() error {
 	if err != nil {
 		panic("MarshallIndent error")
 	}
+	if !w.writer.HasRoom(2) { // both parts or nothing
+		return errors.New("ljh3 write queue is full, header not written")
+	}
 
 	if _, err := w.writer.Write(s); err != nil {
 		return err
@@ -319,6 +325,9 @@ func (w *Writer3) WriteHeader() error {
 // timestamp is posix timestamp in microseconds since epoch
 // data can be variable length
 func (w *Writer3) WriteRecord(firstRisingSample int32, framecount int64, timestamp int64, data []uint16) error {
+	if !w.writer.HasRoom(5) { // all 5 parts or nothing: never leave a partial record in the file
+		return errors.New("ljh3 write queue is full, record not written")
+	}
 	if _, err := w.writer.Write(getbytes.FromInt32(int32(len(data)))); err != nil {
 		return err
 	}
